@@ -46,7 +46,16 @@ def is_helper(body):
     if body.kind == "Closure":
         return False
     if body.j.get("impl_trait") and not str(body.j.get("impl_trait")).startswith(body.prog.facts.get("crate", "txtpp") + "::"):
-        return False        # impls of foreign traits are reached through the trait's users (fmt, From, Drop ..): never spliced
+        # impls of foreign traits are reached through the trait's users (fmt, Drop ..): never spliced — except hand-written conversion
+        # impls of the command-line front end (`impl From<&Flags> for Config`), which are called directly where the Config is built
+        if not (getattr(body.prog, "label", None) == "bin" and not body.span.get("exp") and
+                str(body.j.get("impl_trait")).startswith(("std::convert::From", "std::convert::Into", "std::default::Default"))):
+            return False
+    if getattr(body.prog, "label", None) == "bin":
+        # the command-line front end has one anchor, `main`: how the flags reach Config is read off main's normal form, whichever
+        # methods / builder functions the plumbing is spread over
+        import engine as _e
+        return _e._tail(body.name, 1) != "main"
     k = known_functions()
     if body.name in k or _key(body.name) in k:
         return False
@@ -151,6 +160,15 @@ def _target(prog, t, helpers):
             return b, True
         if n in helpers:
             return b, False
+    # `x.into()` through std's blanket `impl<T, U: From<T>> Into<U> for T`: the crate's own `impl From<T> for U`, when it is a helper
+    if "<T as std::convert::Into<U>>::into" in C.callee_names(t):
+        ta = t["callee"].get("targs") or []
+        if len(ta) == 2:
+            for n in helpers:
+                b = prog.bodies.get(n)
+                if b is not None and str(b.j.get("impl_trait", "")).startswith("std::convert::From") and b.arg_count == 1 and \
+                        b.locals[1]["ty"] == ta[0]["ty"] and b.locals[0]["ty"] == ta[1]["ty"]:
+                    return b, False
     return None, False
 
 
